@@ -524,7 +524,8 @@ def _attempt_point(idx):
 
 def _attempts(topo, mi, hist, rkind):
     """rkind: 0 retries=False; 1 Retry(total=1); 2 Retry(total=2, connect=1, read=1, status=1, other=1); 3 Retry(total=3, read=0)
-    4 Retry(total=5, allowed_methods=None [retry every method]); 5 integer 2"""
+    4 Retry(total=5, allowed_methods=None [retry every method]); 5 integer 2; 6 Retry(total=4, connect=0); 7 Retry(total=4, status=1,
+    force-list without the Retry-After statuses)"""
     method = METHODS_U[mi]
     if "500_plain" in hist and "500_forcelisted_retry_after" in hist:
         return True        # one policy cannot both force-list 500 and leave it alone
@@ -540,13 +541,15 @@ def _attempts(topo, mi, hist, rkind):
     Retry.increment = _logging_increment
     try:
         mk = {1: dict(total=1), 2: dict(total=2, connect=1, read=1, status=1, other=1), 3: dict(total=3, read=0),
-              4: dict(total=5, allowed_methods=None)}
+              4: dict(total=5, allowed_methods=None), 6: dict(total=4, connect=0), 7: dict(total=4, status=1)}
         if rkind == 0:
             retries = False
         elif rkind == 5:
             retries = 2
         else:
             fl = ([503] if "503_forcelisted" in hist else []) + ([500] if "500_forcelisted_retry_after" in hist else [])
+            if rkind == 7:
+                fl = fl + [418]          # a non-empty force-list that does not name the statuses retried for their Retry-After
             retries = SpyRetry(status_forcelist=fl or None, backoff_factor=0, **mk[rkind])
         body = b"x=1" if method in ("POST", "PUT", "PATCH") else None
         exc = None
@@ -635,6 +638,51 @@ def _attempts(topo, mi, hist, rkind):
                 # did the budget allow another attempt?
                 if not isinstance(log[k - 1].get("after"), Retry):
                     break
+        # (3b) the number of attempts is exactly what the per-category budgets allow (reference counters, written from the docs)
+        f1_possible = topo in (1, 2) and any(o in ("reset_after_send", "eof_after_send") for o in hist)
+        # (a connect fault scripted for an attempt that re-uses the kept-alive connection of a status response never happens)
+        unreachable_connect = any(o in CONNECT_CLASS and i > 0 and hist[i - 1] in STATUS_RETRY + ("500_plain",)
+                                  for i, o in enumerate(hist))
+        if allowed and not f1_possible and not unreachable_connect:
+            pol = {"total": budget_total, "connect": None, "read": None, "status": None, "other": None}
+            if rkind in mk:
+                for kk in ("connect", "read", "status", "other"):
+                    if kk in mk[rkind]:
+                        pol[kk] = mk[rkind][kk]
+            forcelisted = set()
+            if rkind not in (0, 5):
+                if "503_forcelisted" in hist:
+                    forcelisted.add("503_forcelisted")
+                    forcelisted.update(("503_retry_after",))          # same status code 503
+                if "500_forcelisted_retry_after" in hist:
+                    forcelisted.add("500_forcelisted_retry_after")
+            expected = 0
+            for o in script:
+                if o not in CONNECT_CLASS:
+                    expected += 1                  # (a refused / timed-out connect puts no request on the wire)
+                if o in ("ok", "500_plain"):
+                    break
+                if o in CONNECT_CLASS:
+                    cat = "connect"
+                elif o in READ_CLASS:
+                    cat = "read"
+                else:
+                    cat = "status"
+                    retried = o in forcelisted or (o in ("503_retry_after", "413_retry_after") and pol["total"])
+                    if o == "503_forcelisted" and o not in forcelisted:
+                        retried = False
+                    if o == "500_forcelisted_retry_after" and o not in forcelisted:
+                        retried = False
+                    if not retried:
+                        break                      # handed to the caller as a response
+                pol["total"] -= 1
+                if pol[cat] is not None:
+                    pol[cat] -= 1
+                if min(v for v in pol.values() if v is not None) < 0:
+                    break                          # exhausted: MaxRetryError
+            if nsent != expected:
+                return _fail("%d requests on the wire, the budgets allow exactly %d (history %r, policy %r, %s, topology %s)"
+                             % (nsent, expected, hist, mk.get(rkind, rkind), method, TOPOS[topo]))
         # (4) termination / exhaustion surfaces as MaxRetryError (or the last response)
         if exc is not None and not isinstance(exc, (MaxRetryError, ProtocolError, ReadTimeoutError, _ProxyError, NewConnectionError, ConnectTimeoutError)):
             return _fail("unexpected failure %r" % (exc,))
@@ -698,7 +746,7 @@ def JOBS(tier):
         if not quick:
             jobs.append({"func": "c04_increment_small", "timeout": t, "part": {"event": ei, "mask": 63}})
     for topo in (0, 1, 2):
-        for rk in range(6):
+        for rk in range(8):
             jobs.append({"func": "c04_attempts", "timeout": t, "path_timeout": 60, "samples": 1,
                          "part": {"topos": [topo], "methods": [0, 1, 2] if quick else [0, 1, 2, 3, 4], "outcomes": OUTCOMES,
                                   "rkinds": [rk], "three": not quick}})
